@@ -248,6 +248,12 @@ pub struct Ctx {
     pub replay: Option<(String, u64, u64)>, // kind, idx, case_seed
     replay_done: bool,
     start: Instant,
+    /// the thorough tier runs the monitor in several rounds, each taking the next slice of every random
+    /// workload, so that the time budget is spread over all workloads instead of being used up by the first
+    pub round: u64,
+    pub rounds: u64,
+    kind_time: BTreeMap<String, f64>,
+    in_random: bool,
 
     // current case
     cur_kind: String,
@@ -274,7 +280,7 @@ impl Ctx {
     pub fn new(prop: &str, tier: Tier, seed: u64, shard: usize, nshards: usize, budget_s: f64) -> Self {
         Ctx {
             prop: prop.to_string(), tier, seed, shard, nshards, budget_s,
-            replay: None, replay_done: false, start: Instant::now(),
+            replay: None, replay_done: false, start: Instant::now(), round: 0, rounds: 1, kind_time: BTreeMap::new(), in_random: false,
             cur_kind: String::new(), cur_idx: 0, cur_seed: 0,
             evals: 0, classes: BTreeMap::new(), nt_hashes: HashSet::new(), nt_evals: 0,
             samples: BTreeMap::new(), counters: BTreeMap::new(), maxima: BTreeMap::new(),
@@ -310,6 +316,8 @@ impl Ctx {
             self.replay_done = true;
         } else {
             if !self.mine(idx) { return }
+            if self.round > 0 && !self.in_random { return } // fixed sweeps run in the first round only
+            if !self.in_random && self.elapsed() > 1.5 * self.budget_s { self.budget_exhausted = true; self.count("fixed_sweep_cases_skipped_after_time_budget", 1); return }
             seed = self.case_seed(kind, idx);
         }
         self.cur_kind = kind.to_string();
@@ -341,7 +349,9 @@ impl Ctx {
     where F: FnMut(&mut Ctx, &mut Rng) {
         if let Ok(only) = std::env::var("VH_ONLY") { if !kind.contains(&only) { return } } // debugging aid
         let t0 = self.elapsed();
-        for idx in 0..n_total {
+        let (lo, hi) = self.slice(n_total);
+        self.in_random = true;
+        for idx in lo..hi {
             if self.replay.is_none() {
                 if !self.mine(idx) { continue }
                 if !self.time_left() { self.budget_exhausted = true; break }
@@ -349,8 +359,16 @@ impl Ctx {
             self.case(kind, idx, |c, r| f(c, r));
             if self.replay_done { break }
         }
+        self.in_random = false;
         let dt = self.elapsed() - t0;
         self.count(&format!("ms_spent/{kind}"), (dt * 1000.0) as i64);
+    }
+
+    /// the slice of 0..n_total that belongs to the current round (everything when replaying)
+    fn slice(&self, n_total: u64) -> (u64, u64) {
+        if self.replay.is_some() || self.rounds <= 1 { return (0, n_total) }
+        let (n, r, k) = (n_total as u128, self.round as u128, self.rounds as u128);
+        ((n * r / k) as u64, (n * (r + 1) / k) as u64)
     }
 
     /// like `random_cases`, but this kind may use at most `share` of the time budget (so that a slow
@@ -359,20 +377,26 @@ impl Ctx {
     where F: FnMut(&mut Ctx, &mut Rng) {
         if let Ok(only) = std::env::var("VH_ONLY") { if !kind.contains(&only) { return } }
         let t0 = self.elapsed();
-        for idx in 0..n_total {
+        let used0 = self.kind_time.get(kind).cloned().unwrap_or(0.0);
+        let (lo, hi) = self.slice(n_total);
+        self.in_random = true;
+        for idx in lo..hi {
             if self.replay.is_none() {
                 if !self.mine(idx) { continue }
                 if !self.time_left() { self.budget_exhausted = true; break }
-                if self.elapsed() - t0 > share * self.budget_s { self.count(&format!("time_share_used_up/{kind}"), 1); break }
+                if used0 + self.elapsed() - t0 > share * self.budget_s { self.count(&format!("time_share_used_up/{kind}"), 1); break }
             }
             self.case(kind, idx, |c, r| f(c, r));
             if self.replay_done { break }
         }
+        self.in_random = false;
         let dt = self.elapsed() - t0;
+        *self.kind_time.entry(kind.to_string()).or_insert(0.0) += dt;
         self.count(&format!("ms_spent/{kind}"), (dt * 1000.0) as i64);
     }
 
     pub fn replaying(&self) -> bool { self.replay.is_some() }
+    pub fn cur_idx(&self) -> u64 { self.cur_idx }
 
     // ---- recording
 
